@@ -179,6 +179,49 @@ def rule_edges(ctx):
               detail=sorted(set(bad))[:8], bad_desc="successor selection differs: " + "; ".join(sorted(set(bad))[:3]))
 
 
+def rule_successor_table(ctx):
+    """R09.2b: the successor of the head, decided on the abstract paths of SendRequest::proceed run with the two selector flags
+    set to constants: nothing but the flags (not the version, not the method) takes part in the choice"""
+    R = "R09.2"
+    prog = ctx.prog
+    from .tables import mk_interp
+    pr = prog.find("Flow::<B, SendRequest>::proceed")
+    if not ctx.require(pr, R, "entry:proceed", "Flow::<B, SendRequest>::proceed"):
+        return
+    bad = []
+    n = 0
+    for ssb in (0, 1):
+        for aw in (0, 1):
+            want = "RecvResponse" if ssb == 0 else ("Await100" if aw == 1 else "SendBody")
+            for holder in ("WithBody", "WithoutBody"):
+                I = mk_interp(prog, max_states=40000)
+                flow = {(): ("term", ("in", "flow")),
+                        (("f", "inner"), ("f", "should_send_body")): ("int", ssb),
+                        (("f", "inner"), ("f", "await_100_continue")): ("int", aw),
+                        (("f", "inner"), ("f", "call"), ("$v",)): ("variant", holder)}
+                try:
+                    outs = I.run(pr, [flow], None)
+                except (PathLimit, Unsupported) as e:
+                    ctx.incomplete(R, "interp:successor-table", str(e))
+                    return
+                for o in outs:
+                    if o.kind != "return":
+                        continue
+                    pre = ()
+                    if variant_of(o.ret) == "Ok":
+                        pre = (("v", "Ok"), ("f", "0"))
+                    v = o.ret.get(pre + (("$v",),))
+                    if v != ("variant", "Some"):
+                        continue
+                    sv = o.ret.get(pre + (("v", "Some"), ("f", "0"), ("$v",)))
+                    n += 1
+                    if not sv or sv[0] != "variant" or sv[1] != want:
+                        bad.append("body-due=%d expect-100=%d (%s call): successor %s, expected %s" % (ssb, aw, holder, sv[1] if sv and sv[0] == "variant" else "?", want))
+    ctx.check(n >= 4 and not bad, R, "successor-table", "SendRequest::proceed: RecvResponse when no body is due, Await100 when a body is due and "
+              "Expect: 100-continue is pending, SendBody otherwise - on every abstract path with the flags fixed (%d successor paths)" % n,
+              loc=body_loc(pr), detail=sorted(set(bad))[:6])
+
+
 BODY_METHODS = ("Method::POST", "Method::PUT", "Method::PATCH")
 # who may store the edge-selecting flags after construction, and which constant (reviewed table; the
 # typestate fixpoint covers what the stores do, this table pins *who* and *what value*)
@@ -524,5 +567,5 @@ def rule_body_sent_premise(ctx):
     rules_bodies.rule_c04_write(ctx)
 
 
-RULES = [rule_typestate, rule_edges, rule_selectors, rule_after_head, rule_readiness, rule_inventory, rule_body_sent_premise]
+RULES = [rule_typestate, rule_edges, rule_successor_table, rule_selectors, rule_after_head, rule_readiness, rule_inventory, rule_body_sent_premise]
 THOROUGH_RULES = [rule_witnesses]
